@@ -235,7 +235,7 @@ def run(ctx: Ctx) -> None:
             raise MachineryError(f"only {rp.n} states emitted")
         # ---- C->S: long random histories on real stores, validated step by step by Trace_HugrStore
         nt, lo, hi = (60, 30, 80) if quick else (400, 50, 300)
-        traces, py_viol = gen_traces(ctx, ctx.seed + 4, nt, lo, hi)
+        traces, py_viol = gen_traces(ctx, ctx.seed + 4, nt, lo, hi, insert_bias=0.15)
         r3, rej = validate_traces(ctx, "c2s", "Trace_HugrStore", traces, wd,
                                   constants=('CONSTANT OpToks = {"a", "b", "const"}\nCONSTANT MetaToks = {"none", "m", "u"}\n'
                                              "CONSTANT Offsets <- TOffsets\nCONSTANT MaxNodes = 400\nCONSTANT MaxLinks = 4000"),
